@@ -112,3 +112,43 @@ Fixpoint tsortedb (t : trie) : bool :=
   | Leaf _ => true
   | Node l => sortedb (keys l) && forallb (fun ct => tsortedb (snd ct)) l
   end.
+
+(* ---------- executable checks of the hypotheses ---------- *)
+Fixpoint nodupb (l : list rank) : bool :=
+  match l with [] => true | x :: l' => negb (existsb (String.eqb x) l') && nodupb l' end.
+
+(* every tensor of the term: distinct ranks, and r (if held) is the NEXT rank *)
+Definition rems_okb (r : rank) (rs : list rank) : bool := nodupb rs && (negb (rmem r rs) || heads r rs).
+Definition term_okb (r : rank) (tm : term) : bool := forallb (fun t => rems_okb r (rem t)) tm.
+
+(* the leader (position k): next rank r, current fiber sorted *)
+Definition leader_okb (r : rank) (k : nat) (tm : term) : bool :=
+  match nth_error tm k with Some ld => participates r ld && sortedb (keys (children (cur ld))) | None => false end.
+
+(* well-formedness of the outer levels: every term has a participant at every level, and Q holds of every state the
+   levels can reach (Nest.wf L = wf_outer L "all tensors exhausted") *)
+Fixpoint wf_outer (Lo : list rank) (Q : list term -> Prop) (tms : list term) : Prop :=
+  match Lo with
+  | [] => Q tms
+  | r :: Lo' => (forall tm, In tm tms -> exists t, In t tm /\ participates r t = true)
+                /\ forall c, wf_outer Lo' Q (map (step_term r c) tms)
+  end.
+
+(* rank structure of an occupancy split *)
+Definition occ_rems (r r1 r0 : rank) (rs : list rank) : list rank :=
+  match rs with x :: rest => if String.eqb x r then r1 :: r0 :: rest else rs | [] => rs end.
+
+(* static validator of a dynamically placed occupancy split of one product term with rank structure sh: the outer levels
+   Lo (not r) each have a participant; when they are done every tensor has distinct ranks and holds r only as its next
+   rank, the leader (position k) holds r, and the inner levels Li are well-formed for the split rank structure *)
+Fixpoint occ_dyn_okb (Lo : list rank) (r r1 r0 : rank) (k : nat) (Li : list rank) (sh : list (list rank)) : bool :=
+  match Lo with
+  | [] => forallb (rems_okb r) sh
+          && match nth_error sh k with Some rs => heads r rs | None => false end
+          && swf Li [map (occ_rems r r1 r0) sh]
+  | x :: Lo' => negb (String.eqb x r) && existsb (heads x) sh && occ_dyn_okb Lo' r r1 r0 k Li (step_rems x sh)
+  end.
+
+(* the state one product term reaches along Lo at the coordinates of p *)
+Fixpoint reach_term (Lo : list rank) (p : point) (tm : term) : term :=
+  match Lo with [] => tm | r :: Lo' => reach_term Lo' p (step_term r (p r) tm) end.
